@@ -72,6 +72,7 @@ Definition entry_publish_header (s : list Z) : list Z := run (
   do (v, s) <- tk_z s; do (d, s) <- tk_b s; do (q, s) <- tk_z s; do (rt, s) <- tk_b s; do (m, s) <- tk_z s;
   do (t, s) <- tk_bytes s; do (pr, s) <- tk_bytes s; do (n, s) <- tk_z s;
   Some (if negb (byte_ok (publish_command d q rt)) then [1; E_value]
+        else if publish_remlen_n (version_of_Z v) q t pr n >? rl_max then [1; E_value]
         else if str16_ok t && ((q <=? 0) || u16_ok m)
              then 0 :: publish_header (version_of_Z v) d q rt m t pr n else [1; E_struct])).
 
